@@ -206,6 +206,11 @@ FlagStatus(c) == c = "InDataExchange"
 HasCommStatus(d, c) == d = "rcs380" /\ c \in {"InCommRF", "TgCommRF"}
 RegDomain(c) == IF c = "ReadFIFOLevel" THEN 0..64 ELSE 0..255     \* 64 byte FIFO
 
+CutLens == 0..5
+\* cut below TFI + response code: nothing of the answer is left
+CutHeader(f) == f.k \in {"CutBody", "CutBodyX"} /\ f.v < 2
+\* cut behind the response code: status and data may be missing or shortened, the frame is a valid answer
+CutData(f) == f.k \in {"CutBody", "CutBodyX"} /\ f.v >= 2
 LinkFaults(d) ==
   IF d = "udp" THEN {}
   ELSE {F("ErrorFrame", 0), F("HostTimeout", 0), F("HostIO", 0), F("HostIOW", 0), F("DeviceGone", 0),
@@ -213,9 +218,14 @@ LinkFaults(d) ==
         F("CutTail", 0), F("BadChecksum", 0), F("WrongCode", 0)}
        \cup (IF d = "acr122" THEN {F("ShortFrame", 9), F("ShortFrame", 11)}
              ELSE {F("NoAck", 0), F("BadAck", 0)})
+       \* a WELL-FORMED frame (CCID block / information frame / RC-S380 frame with length fields and checksums
+       \* recomputed) whose payload is cut to its first min(v, length - 1) bytes; CutBodyX: in an extended frame
+       \cup {F("CutBody", n) : n \in CutLens}
+       \cup (IF d \in Pn53xLink THEN {F("CutBodyX", n) : n \in CutLens} ELSE {})
 UdpSendFaults == {F("HostIOW", 0), F("DeviceGone", 0), F("ShortSend", 0)}
 UdpRecvFaults == {F("HostTimeout", 0), F("HostIO", 0), F("RfOff", 0), F("ShortFrame", 1), F("ShortFrame", 2),
                   F("BadChecksum", 0), F("WrongCode", 0), F("Garbled", 1), F("Garbled", 2)}
+                 \cup {F("CutBody", n) : n \in CutLens}          \* only a prefix of the datagram arrives
 
 \* RC-S380 communication status: bit i of the mask selects flag CommFlags[i+1]
 CommFlags == <<"PROTOCOL_ERROR", "PARITY_ERROR", "CRC_ERROR", "COLLISION_ERROR", "OVERFLOW_ERROR",
@@ -325,7 +335,7 @@ OpAllowed(d, k, at, f) ==
   \* udp: somebody else listens on the port already
   ELSE IF f.k = "AddrInUse" THEN {"NoTarget"}
   \* the host link failed / the chip refused a configuration command
-  ELSE IF c \in Decisive
+  ELSE IF c \in Decisive /\ ~(CutData(f) /\ d # "udp")     \* (a shortened but valid answer may still describe a target)
        THEN {"NoTarget", "IOErr"}
             \* rcs380.Frame does not verify checksums / postamble (outside the C14 statement)
             \cup (IF d = "rcs380" /\ f.k \in {"BadChecksum", "CutTail"} THEN {exp} ELSE {})
@@ -361,7 +371,8 @@ Allowed(d, k, at, f) ==
     [] f.k \in {"HostIO", "HostIOW", "DeviceGone"} -> {"IOErr"}
     [] f.k = "RfOff"      -> {"BrokenLink"}
     [] f.k = "WrongCode" /\ d = "udp" -> {"Timeout"}           \* a datagram for another bit rate is not ours
-    [] f.k \in {"BadAck", "ShortFrame", "CutTail", "BadChecksum", "WrongCode", "Garbled"} ->
+    [] CutData(f) /\ d # "udp" -> Documented \cup NoneOk(k)   \* whatever the shortened answer means, never an internal error
+    [] f.k \in {"BadAck", "ShortFrame", "CutTail", "BadChecksum", "WrongCode", "Garbled", "CutBody", "CutBodyX"} ->
          IF d = "udp" THEN {"Transmission", "Protocol", "IOErr"}
          ELSE {"IOErr"} \cup NoneOk(k)
               \* rcs380.Frame does not verify checksums / postamble (outside the C14 statement)
